@@ -88,6 +88,7 @@ func runHistory(c *core.Ctx, name string, wl sx.Workload, keep int, seed int64, 
 			{Point: "memmerge.beforeIntro", Until: "IntroSegment", Count: 1, Timeout: 10 * time.Second, Prob: 1, Once: true},
 		})
 	}
+	heldReader := 0
 	reopenAt := -1
 	if reopen {
 		reopenAt = len(wl.Batches) / 2 // a restart in the middle of the history
@@ -108,6 +109,17 @@ func runHistory(c *core.Ctx, name string, wl sx.Workload, keep int, seed int64, 
 		}
 		if directedMode == 2 {
 			r.Quiesce(20 * time.Second)
+			continue
+		}
+		if directedMode == 3 {
+			// a reader pins the state after the second batch for the rest of the history: its
+			// snapshot stays recorded (never eligible) although it is not among the newest ones
+			r.Quiesce(20 * time.Second)
+			if bi == 1 {
+				if id, err := r.OpenReader(); err == nil {
+					heldReader = id
+				}
+			}
 			continue
 		}
 		if directed {
@@ -134,6 +146,9 @@ func runHistory(c *core.Ctx, name string, wl sx.Workload, keep int, seed int64, 
 	// "settle" nudges the loops until the purger has caught up (the retained set
 	// then honours numSnapshotsToKeep but tends to hold copies of the final
 	// state); without it the retained points are more diverse
+	if heldReader != 0 {
+		r.CloseReader(heldReader)
+	}
 	settled := false
 	if settle {
 		settled = r.Settle(30 * time.Second)
@@ -257,6 +272,18 @@ func run(c *core.Ctx) error {
 				{B: 3, W: 1, Puts: []string{"c"}, Dels: []string{"a"}}}}
 		name := fmt.Sprintf("directed-memmerge-overtaken-%d", k)
 		o, err := runHistory(c, name, wl, 8, c.Seed*1000+int64(k), false, 0, false, 1)
+		if err != nil {
+			return err
+		}
+		c.Logf("%s: %d rollback points %v", name, o.Points, o.Seqs)
+		outs = append(outs, o)
+	}
+	// a reader held across the history pins an old recorded state
+	for k := 0; k < c.Pick(1, 3); k++ {
+		kv := map[string]interface{}{"numSnapshotsToKeep": 2}
+		wl := sx.RandomWorkload(rng, 9, 1, true, kv)
+		name := fmt.Sprintf("directed-reader-pins-an-old-point-%d", k)
+		o, err := runHistory(c, name, wl, 2, c.Seed*1000+200+int64(k), false, 0, false, 3)
 		if err != nil {
 			return err
 		}
